@@ -36,6 +36,7 @@ type c09Route struct {
 	groups  [][]c09Plugin // plugins of each nested group, outer first
 	handler []c09Plugin
 	push    bool
+	unknown bool // the peer's unknown-call / unknown-push handler (with plugins of its own), reached by an unregistered name
 	fn      int
 	name    string
 }
@@ -144,6 +145,14 @@ func runC09(t *testing.T, seed uint64, m *Mask) *Report {
 		rt.name = fmt.Sprint(g)
 		routes = append(routes, rt)
 	}
+	// the unknown handlers are routes of their own kind: plugins given to SetUnknownCall / SetUnknownPush are
+	// on their chain between the global left and right plugins
+	if r.Chance(0.35) {
+		routes = append(routes, &c09Route{unknown: true, handler: some(2), name: "-1"})
+	}
+	if r.Chance(0.25) {
+		routes = append(routes, &c09Route{unknown: true, push: true, handler: some(2), name: "-1"})
+	}
 	// messages
 	type msg struct {
 		idx   int
@@ -218,6 +227,25 @@ func runC09(t *testing.T, seed uint64, m *Mask) *Report {
 			fmt.Sscan(rt.name, &g)
 			hp := mkAll(rt.handler)
 			switch {
+			case rt.unknown && rt.push:
+				srv.SetUnknownPush(func(c erpc.UnknownPushCtx) *erpc.Status {
+					var a world.Payload
+					c.Bind(&a)
+					simrt.Yield()
+					e.Obs.RecordHandler(world.HandlerEvent{Peer: "srv", Sess: world.SessKey(c.Session()), Seq: c.Seq(), Kind: "push", Method: c.ServiceMethod(), Arg: a.String()})
+					return nil
+				}, hp...)
+				rt.name = fmt.Sprintf("/no/such/push/%d", i)
+			case rt.unknown:
+				srv.SetUnknownCall(func(c erpc.UnknownCallCtx) (interface{}, *erpc.Status) {
+					var a world.Payload
+					c.Bind(&a)
+					simrt.Yield()
+					e.Obs.RecordHandler(world.HandlerEvent{Peer: "srv", Sess: world.SessKey(c.Session()), Seq: c.Seq(), Kind: "call", Method: c.ServiceMethod(), Arg: a.String()})
+					c.SetMeta("Veto-Key", string(c.PeekMeta("Mk")))
+					return &world.Payload{Tag: a.Tag, Data: "ok"}, nil
+				}, hp...)
+				rt.name = fmt.Sprintf("/no/such/call/%d", i)
 			case g < 0 && rt.push:
 				rt.name = srv.RoutePushFunc(pushFns[rt.fn], hp...)
 			case g < 0:
